@@ -20,6 +20,8 @@ inductive Ty where
   | arr (n : Nat) (elem : Ty)
   | opt (elem : Ty)
   | struct (id : Nat)
+  | enum (id : Nat)
+  | errUnion (err ok : Ty)
   deriving DecidableEq, Repr, Inhabited
 
 inductive Val where
@@ -30,6 +32,10 @@ inductive Val where
   | nil
   | some (v : Val)
   | struct (fields : List Val)
+  /-- enum value: variant index and payload (`void` for payload-less variants) -/
+  | variant (k : Nat) (payload : Val)
+  /-- error union: `isOk` and the error / success value -/
+  | eu (isOk : Bool) (v : Val)
   deriving Repr, Inhabited
 
 inductive BinOp where
@@ -59,6 +65,13 @@ inductive Expr where
   | unwrap (a : Expr)                              -- `#unwrap(a)`
   | isSome (a : Expr)                              -- `#is_variant(a, T)`
   | ite (c a b : Expr)                             -- `if c { a } else { b }` as a value
+  | variantLit (k : Nat) (payload : Option Expr)    -- `E.V.(payload)` / `E.V`
+  | isVariant (k : Nat) (a : Expr)                 -- `#is_variant(a, E.V)`
+  | unwrapVariant (k : Nat) (a : Expr)             -- `#unwrap(a, E.V)`
+  | euLit (isOk : Bool) (a : Expr)                 -- implicit `T → E!T` / `E → E!T`
+  | euIsOk (a : Expr)                              -- `#is_variant(a, T)`
+  | euUnwrap (isOk : Bool) (a : Expr)              -- `#unwrap(a, T)` / `#unwrap(a, E)`
+  | tryE (a : Expr)                                -- `a.try`: the error / nil leaves the function
   deriving Repr, Inhabited
 
 /-- assignable places -/
@@ -81,6 +94,9 @@ inductive Stmt where
   | ret (e : Option Expr)
   | deferS (s : Stmt)
   | exprS (e : Expr)
+  /-- `switch arg in scrut { .Vk => {…}, …, _ => {…} }` over an enum (`arms` keyed by variant
+  index), an optional (0 = nil, 1 = payload) or an error union (0 = error, 1 = ok) -/
+  | switchS (scrut : Expr) (arg : Option Nat) (arms : List (Nat × List Stmt)) (default : Option (List Stmt))
   deriving Repr, Inhabited
 
 structure Fn where
@@ -152,6 +168,9 @@ inductive Fault where
   /-- the program left the fragment's rules (ill-typed, unknown variable, division by zero …):
   the generator never produces these; a run that hits one is not compared -/
   | stuck (why : String)
+  /-- not a fault: `.try` met an error / nil; the value leaves the enclosing function, whose
+  call site turns it into that function's result (defers of the blocks left do run) -/
+  | propagate (v : Val)
   deriving Repr, Inhabited
 
 structure St where
@@ -326,6 +345,43 @@ def evalE (p : Program) : Nat → Expr → St → Except (Fault × St) (Val × S
       | .ok (.some _, st1) => .ok (.bool true, st1)
       | .ok (.nil, st1) => .ok (.bool false, st1)
       | .ok (_, st1) => .error (.stuck "is_variant of non-optional", st1)
+    | .variantLit k none => .ok (.variant k .void, st)
+    | .variantLit k (some a) =>
+      match evalE p fuel a st with
+      | .error e => .error e
+      | .ok (v, st1) => .ok (.variant k v, st1)
+    | .isVariant k a =>
+      match evalE p fuel a st with
+      | .error e => .error e
+      | .ok (.variant k' _, st1) => .ok (.bool (k == k'), st1)
+      | .ok (_, st1) => .error (.stuck "is_variant of non-enum", st1)
+    | .unwrapVariant k a =>
+      match evalE p fuel a st with
+      | .error e => .error e
+      | .ok (.variant k' v, st1) => if k = k' then .ok (v, st1) else .error (.unwrapWrongVariant, st1)
+      | .ok (_, st1) => .error (.stuck "unwrap of non-enum", st1)
+    | .euLit isOk a =>
+      match evalE p fuel a st with
+      | .error e => .error e
+      | .ok (v, st1) => .ok (.eu isOk v, st1)
+    | .euIsOk a =>
+      match evalE p fuel a st with
+      | .error e => .error e
+      | .ok (.eu b _, st1) => .ok (.bool b, st1)
+      | .ok (_, st1) => .error (.stuck "is_variant of non-error-union", st1)
+    | .euUnwrap isOk a =>
+      match evalE p fuel a st with
+      | .error e => .error e
+      | .ok (.eu b v, st1) => if b = isOk then .ok (v, st1) else .error (.unwrapWrongVariant, st1)
+      | .ok (_, st1) => .error (.stuck "unwrap of non-error-union", st1)
+    | .tryE a =>
+      match evalE p fuel a st with
+      | .error e => .error e
+      | .ok (.some v, st1) => .ok (v, st1)
+      | .ok (.nil, st1) => .error (.propagate .nil, st1)
+      | .ok (.eu true v, st1) => .ok (v, st1)
+      | .ok (.eu false v, st1) => .error (.propagate (.eu false v), st1)
+      | .ok (_, st1) => .error (.stuck ".try on a non-sum value", st1)
     | .ite c a b =>
       match evalE p fuel c st with
       | .error e => .error e
@@ -404,8 +460,17 @@ def writePlace (p : Program) : Nat → Place → Val → St → Except (Fault ×
         else .error (.stuck "no such field", st1)
       | .ok (_, st1) => .error (.stuck "field of non-struct", st1)
 
-/-- statements; `regs` = defers registered so far in the enclosing block activation -/
+/-- a statement; a `.try` that met an error / nil inside it becomes a `return` of that value
+(so that the defers of the blocks being left run, like for any other return) -/
 def execS (p : Program) : Nat → Stmt → List Stmt → St → Except (Fault × St) (Sig × List Stmt × St)
+  | 0, _, _, st => .error (.outOfFuel, st)
+  | fuel + 1, s, regs, st =>
+    match execSCore p fuel s regs st with
+    | .error (.propagate v, st') => .ok (.ret v, regs, st')
+    | r => r
+
+/-- statements; `regs` = defers registered so far in the enclosing block activation -/
+def execSCore (p : Program) : Nat → Stmt → List Stmt → St → Except (Fault × St) (Sig × List Stmt × St)
   | 0, _, _, st => .error (.outOfFuel, st)
   | fuel + 1, s, regs, st =>
     match s with
@@ -486,6 +551,39 @@ def execS (p : Program) : Nat → Stmt → List Stmt → St → Except (Fault ×
       match evalE p fuel e st with
       | .error e => .error e
       | .ok (_, st1) => .ok (.normal, regs, st1)
+    | .switchS scrut arg arms dflt =>
+      match evalE p fuel scrut st with
+      | .error e => .error e
+      | .ok (v, st1) =>
+        -- which variant is current, and its payload
+        let sel : Option (Nat × Val) := match v with
+          | .variant k pl => some (k, pl)
+          | .nil => some (0, .nil)
+          | .some pl => some (1, pl)
+          | .eu false e => some (0, e)
+          | .eu true o => some (1, o)
+          | _ => none
+        match sel with
+        | none => .error (.stuck "switch on a non-sum value", st1)
+        | some (k, pl) =>
+          match arms.find? (fun a => a.1 == k), dflt with
+          | some (_, body), _ =>
+            -- the argument is bound to the variant's payload
+            let st2 := match arg with
+              | some x => { st1 with env := setVar x pl st1.env }
+              | none => st1
+            match execBlock p fuel body st2 with
+            | .error e => .error e
+            | .ok (sig, st3) => .ok (sig, regs, st3)
+          | none, some body =>
+            -- default arm: the argument is the whole value
+            let st2 := match arg with
+              | some x => { st1 with env := setVar x v st1.env }
+              | none => st1
+            match execBlock p fuel body st2 with
+            | .error e => .error e
+            | .ok (sig, st3) => .ok (sig, regs, st3)
+          | none, none => .error (.stuck "switch does not cover the variant", st1)
 
 def execStmts (p : Program) : Nat → List Stmt → List Stmt → St → Except (Fault × St) (Sig × List Stmt × St)
   | 0, _, _, st => .error (.outOfFuel, st)
@@ -544,5 +642,6 @@ def run (p : Program) (fuel : Nat) : Outcome :=
     | .error (.unwrapWrongVariant, st) => ⟨st.out.reverse, "fault=unwrap"⟩
     | .error (.outOfFuel, st) => ⟨st.out.reverse, "out-of-fuel"⟩
     | .error (.stuck why, st) => ⟨st.out.reverse, s!"stuck={why}"⟩
+    | .error (.propagate _, st) => ⟨st.out.reverse, "stuck=.try escaped main"⟩
 
 end CapyV.Core
